@@ -1,4 +1,5 @@
 import BezierVerif.Model.Geometric
+import BezierVerif.Model.Solve2x2
 
 /-!
 # Model/Self — `self_intersections` and the turning-angle test
@@ -19,8 +20,6 @@ variable {K : Type} [Add K] [Sub K] [Mul K] [Div K] [Neg K] [OfNat K 0] [OfNat K
 /-- edge vectors `(dx, dy)` of the control polygon, zero vectors replaced by `(1, 0)` -/
 def edgeDirs (xs ys : List K) : List (K × K) :=
   (List.zip (diffs xs) (diffs ys)).map (fun d => if d.1 = 0 ∧ d.2 = 0 then (1, 0) else d)
-
-def absK (x : K) : K := if x < 0 then -x else x
 
 /-- complex numbers `(a·b, |a×b|)` of consecutive directions -/
 def turnNumbers : List (K × K) → List (K × K)
